@@ -130,10 +130,26 @@ Print Assumptions C16_counts_total.
 Theorem C16_isinstance_is_descent :
   (forall k ds, isinstance_any k ds = true <-> exists d, In d ds /\ Ancestor k d) /\
   (forall k, isinstance_spec k default_exceptions = true <-> Ancestor k C_Exception) /\
-  (forall k, In k [C_BaseException; C_KeyboardInterrupt; C_SystemExit; C_GeneratorExit; C_UserBase; C_UserExit] ->
+  (forall k, In k [C_BaseException; C_KeyboardInterrupt; C_SystemExit; C_GeneratorExit; C_UserBase; C_UserExit;
+                   C_BaseExceptionGroup; C_UserBaseGroup] ->
              isinstance_spec k default_exceptions = false).
 Proof. exact (conj isinstance_any_iff (conj default_matches default_excludes)). Qed.
 Print Assumptions C16_isinstance_is_descent.
+
+(* exception groups (PEP 654) are classes of the hierarchy like any other: an escaping ExceptionGroup is counted
+   exactly when the configuration names ExceptionGroup itself or one of ITS bases (BaseExceptionGroup, Exception,
+   BaseException), a BaseExceptionGroup when it names BaseExceptionGroup or BaseException - whatever exceptions
+   the group holds (they do not occur in the model: `except <spec>` matches the group object, never its members;
+   that is `except`, not `except*`).  In particular count_exceptions(ValueError) never counts a group. *)
+Theorem C16_group_counted_by_its_own_class : forall (c : mid) (e : espec) (o : val) (s : st),
+  let run := fun k => cnt (snd (eval (Call (count_exceptions c (Some e)) (Raise k o)) s)) c - cnt s c in
+  (run C_ExceptionGroup = 1 <->
+   exists d, In d (spec_classes e) /\ In d [C_ExceptionGroup; C_BaseExceptionGroup; C_Exception; C_BaseException]) /\
+  (run C_BaseExceptionGroup = 1 <->
+   exists d, In d (spec_classes e) /\ In d [C_BaseExceptionGroup; C_BaseException]) /\
+  (forall k, run k = if isinstance_spec k e then 1 else 0).
+Proof. exact group_counted_by_class. Qed.
+Print Assumptions C16_group_counted_by_its_own_class.
 
 (* isinstance(value, spec) is what `except spec:` catches; it depends only on the set of classes the spec names
    (nesting, order, repetition are immaterial); the empty tuple catches nothing; (e,) is e *)
@@ -267,7 +283,7 @@ Example C16_example_configurations :
 Proof.
   vm_compute. repeat split.
   eapply m_tuple; [right; left; reflexivity|]. eapply m_tuple; [left; reflexivity|]. apply m_class.
-  repeat (first [ apply anc_refl | eapply anc_step; [reflexivity|] ]).
+  apply issubclass_sound. reflexivity.
 Qed.
 
 (* why Timer.__call__ uses _new_timer(): ONE Timer object entered inside itself observes, for the outer block,
